@@ -23,6 +23,9 @@ from . import core
 from .core import Engine, PathAbort, explore, to_fraction
 
 NPROC = int(os.environ.get("VERIF_PROCS", "16"))
+XCHECK = os.environ.get("VERIF_XCHECK", "") == "1"      # E3 cross-check (thorough tier)
+XCHECK_PER_TASK = 2
+XCHECK_EVERY = 97
 MAX_SAMPLES = 4
 MAX_CEX_PER_JOB = 6
 
@@ -154,6 +157,9 @@ class Acc:
                 pt = numeric_refute(eng, prop, tries=80, salt=1)
                 if pt is not None:
                     model = pt
+        if ok is not None and isinstance(prop, z3.ExprRef) and XCHECK and self.total("xcheck_tried") < XCHECK_PER_TASK \
+                and (self.total("obligations") % XCHECK_EVERY) == 1:
+            self._cross_check(eng, name, prop, ok)
         if ok is True:
             self.inc("discharged")
             rec[1] += 1
@@ -169,6 +175,45 @@ class Acc:
                                  model=(model if isinstance(model, dict) else model_to_dict(model))
                                  if model is not None else None))
         return False
+
+    def _cross_check(self, eng, name, prop, verdict):
+        """E3: re-decide the query with /usr/bin/z3 (4.8.12) and the cvc5 binary from an SMT-LIB dump."""
+        import subprocess
+        import tempfile
+        self.inc("xcheck_tried")
+        s = z3.Solver()
+        if eng.sliced:
+            s.add(*eng._relevant(z3.Not(prop)))
+        else:
+            s.add(*eng.base)
+            s.add(*eng.pc[: eng.synced])
+        s.add(z3.Not(prop))
+        text = s.to_smt2()
+        want = "unsat" if verdict is True else "sat"
+        with tempfile.NamedTemporaryFile("w", suffix=".smt2", delete=False, dir=os.environ.get("VERIF_SCRATCH") or None) as f:
+            f.write(text)
+            path = f.name
+        try:
+            for solver, cmd in (("z3-4.8.12", ["/usr/bin/z3", "-T:20", path]), ("cvc5-1.0", ["cvc5", "--tlimit=20000", path])):
+                try:
+                    out = subprocess.run(cmd, capture_output=True, text=True, timeout=40).stdout.strip().splitlines()
+                except Exception:
+                    out = []
+                ans = out[0].strip() if out else "no answer"
+                if "(error" in " ".join(out):
+                    ans = "error"
+                if ans in ("sat", "unsat"):
+                    if ans == want:
+                        self.inc(f"xcheck_agree_{solver}")
+                    else:
+                        self.error(f"E3 cross-check: {solver} says {ans}, z3 5.1 said {want} on obligation {name}")
+                else:
+                    self.inc(f"xcheck_no_opinion_{solver}")
+        finally:
+            try:
+                os.unlink(path)
+            except OSError:
+                pass
 
     def concrete(self, name, ok, info=None, eng=None):
         """A concrete (solver-free) obligation evaluated on a path's concrete output.
